@@ -69,15 +69,15 @@ Proof.
 Qed.
 
 Theorem T_outcome o s : sreach o s ->
-  pc s = None -> tunnel s = false -> crashed s = false -> venv s = false ->
+  pc s = None -> tunnel s = false -> crashed s = false -> venv s = false -> fws s = false ->
   mem HkReqHeaders (hooks s) = true -> closed_s s = true ->
   xorb (mem HkResponse (hooks s)) (mem HkError (hooks s)) = true /\ live s = false.
 Proof.
-  intros R Hpc Ht Hc Hv Hq Hcl. destruct (sreach_good o s R) as [I H]. destruct (Inv_facts s I) as (_ & _ & _ & Po).
+  intros R Hpc Ht Hc Hv Hw Hq Hcl. destruct (sreach_good o s R) as [I H]. destruct (Inv_facts s I) as (_ & _ & _ & Po).
   pose proof (bits_mem (hooks s)) as (A & _ & _ & D & E & _).
   unfold P_out, HttpStreamInv.closed_ok in Po. unfold closed_s in Hcl.
   replace (is_pnone (x_pc (abs s))) with true in Po by (destruct s; simpl in *; subst; reflexivity).
-  simpl in Po. rewrite Ht, Hc, Hv, Hcl, H, A, Hq, D, E in Po. simpl in Po.
+  simpl in Po. rewrite Ht, Hc, Hv, Hw, Hcl, H, A, Hq, D, E in Po. simpl in Po.
   apply andb_prop in Po. destruct Po as [P1 P2]. split; [exact P1 | destruct (live s); [discriminate | reflexivity]].
 Qed.
 
@@ -94,8 +94,8 @@ Proof.
   apply G. apply sr_new.
 Qed.
 Definition gap_opts : opts := mkOpts None None true false.
-Definition gap_req : head := mkHead [] MGet (HLen 1) 0 true true false false 0.
-Definition gap_resp : head := mkHead [] MGet (HLen 0) 0 true true false false 200.
+Definition gap_req : head := mkHead [] MGet (HLen 1) 0 true true false false 0 false.
+Definition gap_resp : head := mkHead [] MGet (HLen 0) 0 true true false false 200 false.
 Definition gap_run : list sstep :=
   [SIn (IEvent (EReqHeaders gap_req false)); SAct HkReqHeaders AStream; SIn IHookDone; SIn (IConnDone (Some 1%N));
    SIn (IEvent (EReqData [x61])); SIn (IEvent EReqEOM);
@@ -104,6 +104,19 @@ Definition gap_run : list sstep :=
 Theorem T_gap_closed :
   let s := run_stream gap_opts gap_run in
   venv s = false /\ hooks s = [HkReqHeaders; HkRequest; HkError] /\ live s = false.
+Proof. vm_compute. repeat split. Qed.
+
+(* an addon replaces the 101 response of a WebSocket handshake in the response hook: flow.websocket was set before the
+   hook, flow_done therefore leaves the flow live, and the replaced response is not a 101, so nothing takes the flow over *)
+Definition ws_req : head := mkHead [] MGet HNone 0 true true false false 0 true.
+Definition ws_resp : head := mkHead [] MGet HNone 0 true true false false 101 true.
+Definition ws_run : list sstep :=
+  [SIn (IEvent (EReqHeaders ws_req true)); SIn IHookDone; SIn (IEvent EReqEOM); SIn IHookDone; SIn (IConnDone (Some 1%N));
+   SIn (IEvent (ERespHeaders ws_resp true)); SIn IHookDone; SIn (IEvent ERespEOM); SAct HkResponse AResp; SIn IHookDone].
+Theorem T_live_refuted :
+  let s := run_stream gap_opts ws_run in
+  pc s = None /\ tunnel s = false /\ crashed s = false /\ venv s = false /\ closed_s s = true
+  /\ hooks s = [HkReqHeaders; HkRequest; HkRespHeaders; HkResponse] /\ fws s = true /\ live s = true.
 Proof. vm_compute. repeat split. Qed.
 
 (* ---------- every stream of the system model is a reachable stream *)
